@@ -360,6 +360,10 @@ def parse_mir(text):
     while i < n:
         line = lines[i]
         m = FN_RE.match(line) if line.startswith('fn ') else None
+        if not m and line.startswith('const ') and line.endswith('= {') and 'promoted[' in line:
+            pm = re.match(r'^const (.+?::promoted\[\d+\]): (.+?) = \{$', line)
+            if pm:
+                m = FN_RE.match('fn %s() -> %s {' % (pm.group(1), pm.group(2)))
         if not m:
             i += 1
             continue
